@@ -115,6 +115,10 @@ def run(chk):
         for k, row in enumerate(rows):
             mc.KNOWN_MINECRAFT_VERSION_RECORDS[:] = base
             mc.initglobals(use_known_records=True)
+            # contexts that exist before the records are extended (a long-lived Connection's context) and keep their version
+            old_ctx = {p: ConnectionContext(protocol_version=p) for p in mc.KNOWN_PROTOCOL_VERSIONS}
+            for cx in old_ctx.values():
+                cx.protocol_later_eq(cx.protocol_version)
             for op in row['hist']:
                 if op['op'] == 'extend':
                     mc.KNOWN_MINECRAFT_VERSION_RECORDS.insert(op['pos'], Version(op['id'], op['p'], op['sup']))
@@ -148,12 +152,13 @@ def run(chk):
                 Pk = list(mc.KNOWN_PROTOCOL_VERSIONS)
                 bad = None
                 for i in range(len(Pk)):
-                    cx = ConnectionContext(protocol_version=Pk[i])
+                  for cx in [ConnectionContext(protocol_version=Pk[i])] + ([old_ctx[Pk[i]]] if Pk[i] in old_ctx else []):
                     for j in range(len(Pk)):
                         try:
                             ok = utility.protocol_earlier(Pk[i], Pk[j]) == (i < j) and \
                                 utility.protocol_earlier_eq(Pk[i], Pk[j]) == (i <= j) and \
                                 cx.protocol_later(Pk[j]) == (i > j) and cx.protocol_later_eq(Pk[j]) == (i >= j) and \
+                                cx.protocol_earlier(Pk[j]) == (i < j) and cx.protocol_earlier_eq(Pk[j]) == (i <= j) and \
                                 cx.protocol_in_range(Pk[j], Pk[-1]) == (j <= i < len(Pk) - 1)
                         except Exception as e:      # noqa
                             ok, bad = False, 'comparing %r with %r raised %r' % (Pk[i], Pk[j], e)
